@@ -150,3 +150,19 @@ Print Assumptions C14_listing_selects_every_table.
 Print Assumptions C14_listing_skips_leases_and_the_sequence.
 Print Assumptions C14_names_have_their_own_record.
 Print Assumptions C14_table_records_are_not_internal_records.
+
+(* ---- API layer end to end (Model/Api.v: KVServer -> Engine -> ActiveTable -> state machine) ---- *)
+From Verif Require Model.Api Proofs.ApiFacts Model.Fsm Model.SMap.
+
+(* operations on one table never change the content of another: whatever request is addressed to table t - accepted,
+   refused, a transaction of any shape - every other table (stored form, so content AND bookkeeping) is untouched *)
+Theorem C14_api_other_tables_untouched : forall (d : SMap.smap Fsm.store) (idx : N) (q : Api.api_req) (t' : bytes),
+  t' <> Api.req_table q -> SMap.sget (fst (Api.impl_step d idx q)) t' = SMap.sget d t'.
+Proof. exact (ApiFacts.other_tables_untouched _ _ _ _ _). Qed.
+Print Assumptions C14_api_other_tables_untouched.
+
+(* the key-value API neither creates nor drops tables *)
+Theorem C14_api_keeps_the_table_set : forall (d : SMap.smap Fsm.store) (idx : N) (q : Api.api_req) (t' : bytes),
+  Api.known _ (fst (Api.impl_step d idx q)) t' = Api.known _ d t'.
+Proof. exact (ApiFacts.known_preserved _ _ _ _ _). Qed.
+Print Assumptions C14_api_keeps_the_table_set.
